@@ -782,6 +782,14 @@ def explore_maps(prop, tier, seed, n_quick, mode):
                             ';'.join(sorted(nodekey(k) + '@' + '+'.join(sorted(taxS(pathof(gg.taxon)) + '>' + nodekey(z) for gg, z in v.items())) for k, v in lm.get_retained().items())),
                             ';'.join(sorted(nodekey(k) + '@' + '+'.join(sorted(taxS(pathof(gg.taxon)) + '>' + ','.join(sorted(nodekey(z) for z in zs)) for gg, zs in v.items())) for k, v in lm.get_duplicated().items()))))
                         queries.append('(l %s %s)' % (tax_q(g1), tax_q(g2)))
+                        if D.families:
+                            # per compared genome: duplicated copies / retained genes against the histories (theorem
+                            # C08_lateral_counts_are_the_history)
+                            for gq_ in (g1, g2):
+                                if gq_ != pathof(lm.ancestor.taxon):
+                                    o.put('hlat', '%s,%s>%s=%d,%d' % (taxS(g1), taxS(g2), taxS(gq_),
+                                                                      sum(len(v_[gs[gq_]]) for v_ in lm.get_duplicated().values() if gs[gq_] in v_),
+                                                                      sum(1 for v_ in lm.get_retained().values() if gs[gq_] in v_)))
                         try:
                             v = h.compare_genomes_vertically(gs[g1], gs[g2]); m = v.map
                             o.put('vmap', ob.vmapS(v)); o.put('upmap', ob.upmapS(m))
@@ -792,7 +800,7 @@ def explore_maps(prop, tier, seed, n_quick, mode):
             bad = ['comparison raised %s: %s' % (type(e).__name__, e)]
         if bad:
             ex.fail(cid, D, bad)
-        tags = {'C05': ['vmap'], 'C06': ['vmap', 'upmap', 'hgain', 'hlost', 'hrep', 'hndup'], 'C07': ['upmap'], 'C08': ['lmap', 'lagg', 'vmap', 'verr', 'lerr']}[mode]
+        tags = {'C05': ['vmap'], 'C06': ['vmap', 'upmap', 'hgain', 'hlost', 'hrep', 'hndup'], 'C07': ['upmap'], 'C08': ['lmap', 'lagg', 'vmap', 'verr', 'lerr', 'hlat']}[mode]
         if D.meta.get('large'):
             ex.res.count('large_datasets'); continue
         ex.submit(cid, D, o.tags, ['load'] + tags, queries=queries)
